@@ -464,3 +464,128 @@ Proof.
     change (sset S_help v []) with [(S_help, v)]. cbn [set_options same_ok has_option]. rewrite C1.
     unfold set_option. cbn [get_option]. rewrite C2. cbn [bind]. rewrite Hm, Ha. cbn [bind]. eexists. reflexivity.
 Qed.
+
+(* ================= the command tree ================= *)
+(* every format of the command and of its sub-commands, at any depth, satisfies P *)
+Fixpoint tree_ok (P : fmt -> Prop) (b : bcmd) : Prop :=
+  match b with BCmd _ _ _ _ _ f subs =>
+    P f /\ (fix go (l : list bcmd) : Prop := match l with [] => True | x :: r => tree_ok P x /\ go r end) subs end.
+Lemma tree_ok_unfold P b : tree_ok P b <-> P (b_fmt b) /\ Forall (tree_ok P) (b_subs b).
+Proof.
+  destruct b as [n al d an len f subs]. cbn [tree_ok b_fmt b_subs]. split; intros [H1 H2]; (split; [exact H1|]).
+  - induction subs as [|x r IH]; constructor; [apply H2|apply IH, H2].
+  - induction subs as [|x r IH]; [exact I|]. inversion H2; subst. split; [assumption|apply IH; assumption].
+Qed.
+
+Lemma coll_fold_in (L : list bcmd) : forall l c,
+  (forall k x, In (k, x) (cc_cmds c) -> In x L) -> (forall x, In x l -> In x L) ->
+  forall k x, In (k, x) (cc_cmds (fold_left coll_add l c)) -> In x L.
+Proof.
+  induction l as [|b r IH]; intros c Hc Hl k x; cbn [fold_left]; [apply Hc|].
+  apply IH; [|intros y Hy; apply Hl; now right].
+  intros k' x' Hin. cbn [coll_add cc_cmds] in Hin. apply in_sset in Hin as [[_ ->]|Hin]; [apply Hl; now left|eapply Hc; eauto].
+Qed.
+Lemma coll_of_in l k x : In (k, x) (cc_cmds (coll_of l)) -> In x l.
+Proof. apply (coll_fold_in l l coll_empty); [intros ? ? []|auto]. Qed.
+Lemma coll_get_in l n b : coll_get (coll_of l) n = Ok b -> In b l.
+Proof.
+  unfold coll_get. destruct (sget n (cc_cmds (coll_of l))) as [b0|] eqn:E.
+  - intros H. inversion H; subst. apply sget_in in E. eapply coll_of_in; eauto.
+  - destruct (sget n (cc_alias (coll_of l))) as [m|]; [|discriminate].
+    destruct (sget m (cc_cmds (coll_of l))) as [b0|] eqn:E2; [|discriminate].
+    intros H. inversion H; subst. apply sget_in in E2. eapply coll_of_in; eauto.
+Qed.
+Lemma named_get_in l n b : coll_get (named_of l) n = Ok b -> In b l.
+Proof. intros H. apply coll_get_in in H. now apply filter_In in H as [H _]. Qed.
+Lemma defaults_of_in l d : In d (defaults_of l) -> In d l.
+Proof.
+  unfold defaults_of. intros H. apply in_map_iff in H as [[k x] [<- H]]. apply coll_of_in in H.
+  now apply filter_In in H as [H _].
+Qed.
+
+(* the command the walk reaches is in the tree *)
+Lemma walk_tree_ok P : forall names l cur b p,
+  Forall (tree_ok P) l -> (forall b0 p0, cur = Some (b0, p0) -> tree_ok P b0) ->
+  walk (named_of l) cur names = Ok (Some (b, p)) -> tree_ok P b.
+Proof.
+  induction names as [|n r IH]; intros l cur b p Hl Hcur; cbn [walk].
+  - intros H. inversion H. eapply Hcur; eauto.
+  - destruct (coll_contains (named_of l) n); cbn [negb]; [|intros H; inversion H; eapply Hcur; eauto].
+    destruct (coll_get (named_of l) n) as [b0|k] eqn:Hg; cbn [bind]; [|discriminate].
+    apply named_get_in in Hg. pose proof (proj1 (Forall_forall _ _) Hl b0 Hg) as Hb0.
+    apply IH; [apply tree_ok_unfold, Hb0|]. intros b1 p1 E. inversion E; subst. exact Hb0.
+Qed.
+
+(* ================= the probe of the default (sub-)commands ================= *)
+Section Pick.
+  Variables t1 t2 : list str.
+  Let Q (d : bcmd) : Prop := forall len, same_ok (parse (b_fmt d) len t1) (parse (b_fmt d) len t2).
+
+  Lemma pick_default_switch : forall ds first1 first2,
+    Forall Q ds -> option_map fst first1 = option_map fst first2 -> (forall b k, first1 = Some (b, k) -> Q b) ->
+    match pick_default ds t1 first1 with
+    | Err k => pick_default ds t2 first2 = Err k
+    | Ok None => pick_default ds t2 first2 = Ok None
+    | Ok (Some (d, _)) => Q d /\ exists r2, pick_default ds t2 first2 = Ok (Some (d, r2))
+    end.
+  Proof.
+    induction ds as [|d r IH]; intros first1 first2 Hds Hf Hq; cbn [pick_default].
+    - destruct first1 as [[b1 k1]|], first2 as [[b2 k2]|]; cbn in Hf; try discriminate; [|reflexivity].
+      inversion Hf; subst. split; [eapply Hq; eauto|eauto].
+    - inversion Hds as [|? ? Hd Hr]; subst. pose proof (Hd (b_lenient d)) as Hp. unfold same_ok in Hp.
+      destruct (parse (b_fmt d) (b_lenient d) t1) as [x|k].
+      + destruct Hp as [x2 ->]. split; [exact Hd|eauto].
+      + rewrite Hp. destruct k; try reflexivity.
+        apply IH; [exact Hr| |].
+        * destruct first1 as [[b1 k1]|], first2 as [[b2 k2]|]; cbn in Hf |- *; try discriminate; auto.
+        * intros b k E. destruct first1 as [[b1 k1]|]; [eapply Hq; eauto|]. inversion E; subst. exact Hd.
+  Qed.
+
+  (* ... followed by the lenient parse of the command picked *)
+  Lemma pick_then_parse {Y} ds (K : bcmd -> Y) (alt1 alt2 : res Y) :
+    Forall Q ds -> alt1 = alt2 ->
+    (do d <- pick_default ds t1 None;
+     match d with Some (dc, _) => do x <- parse (b_fmt dc) true t1; Ok (K dc) | None => alt1 end) =
+    (do d <- pick_default ds t2 None;
+     match d with Some (dc, _) => do x <- parse (b_fmt dc) true t2; Ok (K dc) | None => alt2 end).
+  Proof.
+    intros Hds <-. pose proof (pick_default_switch ds None None Hds eq_refl ltac:(discriminate)) as H.
+    destruct (pick_default ds t1 None) as [[[d r1]|]|k].
+    - destruct H as [Hd [r2 ->]]. cbn [bind]. specialize (Hd true). unfold same_ok in Hd.
+      destruct (parse (b_fmt d) true t1) as [x|k]; [destruct Hd as [x2 ->]|rewrite Hd]; reflexivity.
+    - rewrite H. reflexivity.
+    - rewrite H. reflexivity.
+  Qed.
+End Pick.
+
+(* ================= help <path> = <path> --help = <path> -h ================= *)
+Theorem help_same_target_app a o sw path :
+  Forall (tree_ok (carries o)) (ap_cmds a) -> no_value o -> help_switch_of o sw ->
+  forallb lead_ok path = true ->
+  (match path with t :: _ => str_eqb t S_help = false | [] => True end) ->
+  help_target a (S_help :: path) = help_target a (path ++ [sw]).
+Proof.
+  intros Ht Hnv Hsw Hl Hh. rewrite help_word_dropped by exact Hh.
+  assert (str_eqb sw S_help = false /\ stopper sw = true) as [Hs1 Hs2].
+  { destruct Hsw as [_ [->|[-> _]]]; split; reflexivity. }
+  assert (forall l, Forall (tree_ok (carries o)) l ->
+            Forall (fun d => forall len, same_ok (parse (b_fmt d) len path) (parse (b_fmt d) len (path ++ [sw])))
+                   (defaults_of l)) as Hdefs.
+  { intros l Hall. apply Forall_forall. intros d Hd len. apply defaults_of_in in Hd.
+    pose proof (proj1 (Forall_forall _ _) Hall d Hd) as Hd'. apply tree_ok_unfold in Hd' as [Hc _].
+    apply (parse_switch _ o); assumption. }
+  unfold help_target.
+  assert ((match path ++ [sw] with t :: r => if str_eqb t S_help then r else path ++ [sw] | [] => [] end) = path ++ [sw]) as ->.
+  { destruct path as [|t r]; cbn [app]; [now rewrite Hs1|now rewrite Hh]. }
+  assert ((match path with t :: r => if str_eqb t S_help then r else path | [] => [] end) = path) as ->.
+  { destruct path as [|t r]; [reflexivity|now rewrite Hh]. }
+  rewrite (leading_all _ Hl), (leading_cut _ sw [] Hl Hs2).
+  destruct (walk (named_of (ap_cmds a)) None path) as [[[b p]|]|k] eqn:Hw; cbn [bind]; [| |reflexivity].
+  - pose proof (walk_tree_ok (carries o) path (ap_cmds a) None b p Ht ltac:(discriminate) Hw) as Hb.
+    apply tree_ok_unfold in Hb as [Hc Hsubs].
+    apply (pick_then_parse path (path ++ [sw]) (defaults_of (b_subs b)) (fun dc => p ++ [b_name dc])); [apply Hdefs, Hsubs|].
+    pose proof (parse_switch _ o sw true path Hc Hnv Hsw Hl) as Hp. unfold same_ok in Hp.
+    destruct (parse (b_fmt b) true path) as [x|k]; [destruct Hp as [x2 ->]|rewrite Hp]; reflexivity.
+  - destruct path as [|t r]; [|reflexivity].
+    apply (pick_then_parse [] ([] ++ [sw]) (defaults_of (ap_cmds a)) (fun dc => [b_name dc])); [apply Hdefs, Ht|reflexivity].
+Qed.
